@@ -8,7 +8,13 @@ from pathlib import Path
 
 SEEDED = Path("/verif/seeded")
 only = sys.argv[1:]
-results = json.loads((SEEDED / "RESULTS.json").read_text()) if (SEEDED / "RESULTS.json").exists() else {}
+# --out <file>: write the results of this invocation to a separate file (several invocations may then run side by side on
+# disjoint ids; merge with tools/seeded_merge.py)
+OUT = SEEDED / "RESULTS.json"
+if only and only[0] == "--out":
+    OUT = Path(only[1])
+    only = only[2:]
+results = json.loads(OUT.read_text()) if OUT.exists() else {}
 for d in sorted(SEEDED.iterdir()):
     if not (d / "patch.diff").exists() or (only and d.name not in only):
         continue
@@ -33,4 +39,4 @@ for d in sorted(SEEDED.iterdir()):
         print(d.name, {c: r["exit"] for c, r in res["checks"].items()}, "demo", demo_changed, demo_clean, flush=True)
     finally:
         subprocess.run(["git", "-C", "/repo", "worktree", "remove", "--force", wt])
-    (SEEDED / "RESULTS.json").write_text(json.dumps(results, indent=1))
+    OUT.write_text(json.dumps(results, indent=1))
